@@ -18,7 +18,7 @@ CHECKS = {
    text="The whole hostile string stream incl. header variants x bodies and cross-version bodies goes to all four parsers; two acceptors, or a Vector() accepted by a foreign parser or rejected by its own, is a violation.",
    note="no model needed (cross comparison)", ref="3 C13"),
  "C02": dict(tech="runtime monitoring: round-trip monitor (Vector -> ParseVector -> == and all Gets) over objects built through five public-API history styles",
-   text="Objects are reached only through the public API (parse, Set histories incl. failing Sets, clones, zero values, accepted hostile mutants); each is serialised, parsed back and compared with == and on every Get. v2.0: complete enumeration of all 139,968,000 objects in the thorough tier; v3/v4 sampled with an all-pairs floor.",
+   text="Objects are reached only through the public API (parse, Set histories incl. failing Sets, clones, zero values, accepted hostile mutants); each is serialised, parsed back and compared with == and on every Get. v2.0: complete enumeration of all 139,968,000 objects in the thorough tier; v3/v4: every assignment with at most 4/5 optional metrics defined, a Gray-code walk of all optional-metric configurations (complete in thorough: 221 M x 2 and 1.18 G), random objects with an all-pairs floor.",
    note="self-comparison, no model; v3/v4 spaces are sampled", ref="3 C02"),
  "C03": dict(tech=ORACLE + " (exact rational arithmetic, math/big); complete effective-class sweep",
    text="All 16,588,800 effective classes of v3.0 and of v3.1 are realised on real objects and BaseScore/TemporalScore/EnvironmentalScore/Impact/Exploitability compared with an exact-rational evaluation of the specification equations; Modified-metric cover and random overlays lift it to the raw space.",
@@ -30,7 +30,7 @@ CHECKS = {
    text="Every one of the 139,968,000 v2.0 assignments is built through the API, in both tiers, and its three scores must lie in the oracle's conforming set (either neighbour on an exact tie), sub-scores within 1e-9; thorough repeats the complete pass in random history styles.",
    note="trusts the transcription of the v2 guide equations in harness/spec/score_v2.go", ref="3 C05"),
  "C07": dict(tech="runtime monitoring: shadow-map monitor on every Set of complete (m,v,m',v') quadruple matrices and random hostile Set histories; == monitor",
-   text="Complete quadruple matrix on three backgrounds (all-max codes expose masks one bit too wide), failing Sets must leave the object bit-identical, random histories of up to 200 Sets are checked against a shadow map after every step, and equal maps must give == objects whatever the history.",
+   text="Complete quadruple matrix on three backgrounds (all-max codes expose masks one bit too wide), failing Sets must leave the object bit-identical, random histories of up to 200 Sets are checked against a shadow map after every step, a Gray-code walk visits every configuration of the optional metrics by single Set calls with read-back (complete in thorough), and equal maps must give == objects whatever the history.",
    note="shadow map = the property's own statement; histories sampled", ref="3 C07"),
  "C09": dict(tech="runtime monitoring: complete hostile abbreviation x value matrix against the vocabulary tables; well-formedness sweep after hostile histories",
    text="Complete cross product of ~500 hostile abbreviations x ~300 hostile values per version on zero and random objects (accept iff in the vocabulary), then every hostile history is followed by a sweep: all Gets legal, Vector() grammatical and consistent, every scoring method returns.",
